@@ -5,22 +5,41 @@ open Lean EkwVerif.Drive EkwVerif.Gateway
 def pairs (l : List Json) : List (String × String) :=
   l.map (fun p => match asArr p with | [a, b] => (asStr a, asStr b) | _ => ("", ""))
 
-def c18Step (s : St) (j : Json) : St × Json :=
-  match getStr j "op" with
-  | "reset" => ([], Json.str "reset")
-  | "spawn" =>
-    let (s', r) := spawn s ((getArr j "candidates").map asStr)
-    (s', Json.mkObj [("spawned", optStr r)])
-  | "report" =>
-    let r : Report := { job := getStr j "job", status := getOptStr j "status", ts := getInt j "ts",
-                        results := pairs (getArr j "results") }
-    let (s', o) := report s r
-    (s', Json.mkObj [("reported", Json.str (match o with | .ok => "ok" | .notRead => "notRead" | .keyError => "keyError"))])
-  | "progress" =>
-    match progressOf s ((getArr j "ids").map asStr) with
-    | none => (s, Json.mkObj [("progress", Json.null)])
-    | some l => (s, Json.mkObj [("progress", Json.arr (l.map (fun p => Json.arr #[Json.str p.1, Json.str p.2])).toArray)])
-  | "result" => (s, Json.mkObj [("result", optStr (getResult s (getStr j "job") (getStr j "ds")))])
-  | _ => (s, Json.str "bad-op")
+def evOf (j : Json) : Ev :=
+  match getStr j "k" with
+  | "submit" => .fe (.submit ((getArr j "candidates").map asStr) (getBool j "fail"))
+  | "progress" => .fe (.progressOf ((getArr j "ids").map asStr))
+  | "result" => .fe (.getResult (getStr j "job") (getStr j "ds"))
+  | "shutdown" => .fe .shutdown
+  | "malformed" => .fe .malformed
+  | "report" => .ctrl (getStr j "owner") (.report { job := getStr j "job", status := getOptStr j "status", ts := getInt j "ts",
+                                                     results := pairs (getArr j "results") })
+  | _ => .ctrl (getStr j "owner") .garbage
 
-def main : IO Unit := runLoop ([] : St) c18Step
+def outJson : Out → Json
+  | .spawned r => Json.mkObj [("spawned", optStr r)]
+  | .progress none => Json.mkObj [("progress", Json.null)]
+  | .progress (some l) => Json.mkObj [("progress", Json.arr (l.map (fun p => Json.arr #[Json.str p.1, Json.str p.2])).toArray)]
+  | .result r => Json.mkObj [("result", optStr r)]
+  | .bye => Json.mkObj [("bye", Json.bool true)]
+  | .reported .ok => Json.mkObj [("reported", Json.str "ok")]
+  | .reported .error => Json.mkObj [("reported", Json.str "error")]
+  | .notRead => Json.str "notRead"
+  | .died => Json.mkObj [("died", Json.bool true)]
+  | .lost => Json.str "lost"
+  | .notServed => Json.str "notServed"
+
+def phaseStr : Phase → String
+  | .running => "running"
+  | .stopped => "stopped"
+  | .dead => "dead"
+
+def c18Step (g : G) (j : Json) : G × Json :=
+  match getStr j "op" with
+  | "reset" => (G.init, Json.str "reset")
+  | "poll" =>
+    let r := poll g ((getArr j "events").map evOf)
+    (r.g, Json.mkObj [("outs", Json.arr (r.outs.map outJson).toArray), ("phase", Json.str (phaseStr r.g.phase))])
+  | _ => (g, Json.str "bad-op")
+
+def main : IO Unit := runLoop G.init c18Step
